@@ -39,6 +39,23 @@ class Scripted:
         return int(c)
 
 
+def branch_state(seed, L, real):
+    """the state of a forced-branch case, reproducible from (seed, L, real)"""
+    from drivers.C11 import random_mps
+
+    rng = np.random.default_rng(seed)
+    mps = random_mps(rng, L, int(rng.integers(1, 5)))
+    if real:
+        # a legal input of another dtype: real-valued site tensors (e.g. built by the user from a real decomposition)
+        from mqt.yaqs.core.data_structures.networks import MPS as _MPS
+
+        chi_ = int(rng.integers(1, 5))
+        dims_ = [1] + [min(chi_, 2 ** min(i + 1, L - 1 - i)) for i in range(L - 1)] + [1]
+        mps = _MPS(L, tensors=[rng.normal(size=(2, dims_[i], dims_[i + 1])) for i in range(L)], physical_dimensions=[2] * L)
+        mps.normalize("B")
+    return mps
+
+
 def correspond(ctx):
     from drivers.C11 import random_mps
 
@@ -47,8 +64,10 @@ def correspond(ctx):
     for k in range(ctx.scale(14, 200)):
         L = int(ctx.rng.integers(1, 5))
         seed = int(ctx.rng.integers(0, 2**31))
-        rng = np.random.default_rng(seed)
-        mps = random_mps(rng, L, int(rng.integers(1, 5)))
+        real = bool(k % 3 == 1)
+        mps = branch_state(seed, L, real)
+        if real:
+            ctx.count("real_dtype_states" if not any(np.iscomplexobj(t) for t in mps.tensors) else "real_valued_states_stored_complex")
         v = dense.mps_dense(mps)
         for basis in ("Z", "X", "Y"):
             rot = dense.kron_all([ROT[basis]] * L)
@@ -62,7 +81,7 @@ def correspond(ctx):
                 total += pr
                 impl.append((key, pr, float(born[idx]), [float(abs(np.sum(p) - 1)) for p in sr.ps]))
                 exprs.append(f"encode {g_list([str(b) + '%nat' for b in bits])}")
-                cases.append(dict(seed=seed, L=L, basis=basis, bits=list(bits), bond=max(t.shape[2] for t in mps.tensors)))
+                cases.append(dict(seed=seed, L=L, basis=basis, bits=list(bits), bond=max(t.shape[2] for t in mps.tensors), real=real))
     wide_correspondence(ctx)
     vals = common.coq_eval_sharded(HEADER, exprs, tag="c12")
     for c, (key, pr, born, defects), m in zip(cases, impl, vals):
@@ -256,8 +275,7 @@ def replay(ctx, data):
     if rp.get("oracle") == "branch":
         from drivers.C11 import random_mps
 
-        rng = np.random.default_rng(rp["seed"])
-        mps = random_mps(rng, rp["L"], int(rng.integers(1, 5)))
+        mps = branch_state(rp["seed"], rp["L"], rp.get("real", False))
         v = dense.mps_dense(mps)
         sr = Scripted(rp["bits"])
         mps.measure_single_shot(rp["basis"], rng=sr)
